@@ -414,6 +414,25 @@ fn rand_len(rng: &mut Rng, tier: Tier) -> usize {
 
 const NON_ASCII: &[&str] = &["é", "ñ", "ü", "ß", "€", "ж", "日本", "✓", "😀", "Å", "¡", "ÿ", "•", "ł"];
 
+/// password of 128..=200 UTF-8 bytes: ASCII, or with a 2-/3-/4-byte character lying across
+/// byte 127 (the truncation point of Algorithm 2.A cuts it), or 128 exactly
+fn long_pw(rng: &mut Rng) -> String {
+    let mut s = String::new();
+    let cut = rng.below(3);
+    let head = if cut == 0 { 127 } else { 127 - rng.range(1, 3) as usize };
+    while s.len() < head {
+        s.push((0x21 + rng.below(0x5E) as u8) as char);
+    }
+    if cut != 0 {
+        s.push_str(*rng.pick(&["é", "€", "😀", "ж", "日"]));
+    }
+    let total = if rng.chance(1, 4) { 128 } else { rng.range(128, 200) as usize };
+    while s.len() < total {
+        s.push((0x21 + rng.below(0x5E) as u8) as char);
+    }
+    s
+}
+
 /// password of `target` UTF-8 bytes (approximately for non-ASCII), class by `kind`
 fn rand_pw(rng: &mut Rng) -> String {
     let kind = rng.below(10);
@@ -592,10 +611,26 @@ fn gen(rng: &mut Rng, tier: Tier) -> Vec<Case> {
         let i = rng.below(32) as usize;
         u2[i] ^= 0x40;
         out.push(Case::new(format!("vuser {} {} {} {} {} {} {}", rev, n, hx(&upw), hex(&u2), hex(&o), p, idf), format!("vuser damaged{} {}", if i < 16 { "-lo" } else { "-hi" }, tag)));
-        // (the U entry is passed along for the oracle; the function ignores it for R2–R4)
+        // (with the U entry the function runs Algorithm 7 on the recovered 32 bytes)
         let shape = if upw.is_empty() { "uempty" } else if upw.contains('(') { "uparen" } else if upw.len() >= 32 { "ulong" } else { "uplain" };
         out.push(Case::new(format!("vowner {} {} {} {} {} {} {}", rev, n, hx(&opw), hex(&o), p, idf, hex(&u)), format!("vowner right {} {}", shape, tag)));
         out.push(Case::new(format!("vowner {} {} {} {} {} {} {}", rev, n, hx(&wrong), hex(&o), p, idf, hex(&u)), format!("vowner wrong {} {}", shape, tag)));
+        // without /U the function can only check plausibility (oracle: na; model compared)
+        out.push(Case::new(format!("vowner {} {} {} {} {} {} none", rev, n, hx(&opw), hex(&o), p, idf), format!("vowner right no-u {} {}", shape, tag)));
+        out.push(Case::new(format!("vowner {} {} {} {} {} {} none", rev, n, hx(&wrong), hex(&o), p, idf), format!("vowner wrong no-u {} {}", shape, tag)));
+        // a damaged /U must be refused (first 16 bytes for R3/R4, any of the 32 for R2)
+        let mut u3 = u.clone();
+        let j = if rev == 2 { rng.below(32) as usize } else { rng.below(16) as usize };
+        u3[j] ^= 1 << rng.below(8);
+        out.push(Case::new(format!("vowner {} {} {} {} {} {} {}", rev, n, hx(&opw), hex(&o), p, idf, hex(&u3)), format!("vowner right damaged-u {} {}", shape, tag)));
+        if rev >= 3 {
+            // bytes 16..32 of /U are arbitrary for R3/R4: a change there must not matter
+            let mut u4 = u.clone();
+            u4[16 + rng.below(16) as usize] ^= 0x55;
+            out.push(Case::new(format!("vowner {} {} {} {} {} {} {}", rev, n, hx(&opw), hex(&o), p, idf, hex(&u4)), format!("vowner right arbitrary-u-tail {} {}", shape, tag)));
+            out.push(Case::new(format!("vowner {} {} {} {} {} {} {}", rev, n, hx(&opw), hex(&o), p, idf, hex(&u[..16])), format!("vowner right u16 {} {}", shape, tag)));
+        }
+        out.push(Case::new(format!("vowner {} {} {} {} {} {} {}", rev, n, hx(&opw), hex(&o), p, idf, hex(&u[..15])), format!("vowner right u15 {} {}", shape, tag)));
         // the reader's unlock paths on the same dictionary (document revision = rev; for
         // rev 4 both the RC4 (/V2) and the AES (/AESV2) crypt filter; EncryptMetadata both ways)
         let (v, cfm) = match rev {
@@ -679,15 +714,17 @@ fn gen(rng: &mut Rng, tier: Tier) -> Vec<Case> {
     }
 
     // ---- R5 / R6 entries ---------------------------------------------------------------------
-    for i in 0..8 * scale {
+    for i in 0..12 * scale {
         let rev = if i % 2 == 0 { 5 } else { 6 };
         let h = handler(&rev.to_string(), "32").unwrap();
-        let upw = rand_pw(rng);
-        let opw = rand_pw(rng);
+        // every third round: passwords above 127 bytes (Algorithm 2.A (a) truncates them)
+        let long = i % 3 == 2;
+        let upw = if long && i % 6 != 5 { long_pw(rng) } else { rand_pw(rng) };
+        let opw = if long && i % 12 != 2 { long_pw(rng) } else { rand_pw(rng) };
         let key = rng.bytes(32);
         let p = rand_perm(rng);
         let asc = if is_ascii(&opw) && is_ascii(&upw) { "ascii" } else { "nonascii" };
-        let tag = format!("r{} {} nt", rev, asc);
+        let tag = format!("r{} {}{} nt", rev, asc, if long { " pw-over-127" } else { "" });
         let (up, op) = (UserPassword(upw.clone()), OwnerPassword(opw.clone()));
         let u = if rev == 5 { h.compute_r5_user_hash(&up) } else { h.compute_r6_user_hash(&up) }.unwrap();
         let o = if rev == 5 { h.compute_r5_owner_hash(&op, &u) } else { h.compute_r6_owner_hash(&op, &u) }.unwrap();
@@ -702,6 +739,14 @@ fn gen(rng: &mut Rng, tier: Tier) -> Vec<Case> {
         out.push(Case::new(format!("oe {} {} {} {} {}", rev, hx(&opw), hex(&o), hex(&u), hex(&key)), format!("oe {}", tag)));
         out.push(Case::new(format!("valu {} {} {}", rev, hx(&upw), hex(&u)), format!("valu right {}", tag)));
         out.push(Case::new(format!("valu {} {} {}", rev, hx(&wrong), hex(&u)), format!("valu wrong {}", tag)));
+        if upw.len() > 127 {
+            // only the first 127 bytes take part: a password differing after them is the same password
+            out.push(Case::new(format!("valu {} {} {}", rev, hx(&format!("{}Zz", upw)), hex(&u)), format!("valu right tail-differs {}", tag)));
+            out.push(Case::new(format!("recu {} {} {} {}", rev, hx(&format!("{}Zz", upw)), hex(&u), hex(&ue)), format!("recu tail-differs {}", tag)));
+        }
+        if opw.len() > 127 {
+            out.push(Case::new(format!("valo {} {} {} {}", rev, hx(&format!("{}Zz", opw)), hex(&o), hex(&u)), format!("valo right tail-differs {}", tag)));
+        }
         out.push(Case::new(format!("valo {} {} {} {}", rev, hx(&opw), hex(&o), hex(&u)), format!("valo right {}", tag)));
         out.push(Case::new(format!("valo {} {} {} {}", rev, hx(&wrong), hex(&o), hex(&u)), format!("valo wrong {}", tag)));
         out.push(Case::new(format!("recu {} {} {} {}", rev, hx(&upw), hex(&u), hex(&ue)), format!("recu {}", tag)));
